@@ -33,9 +33,9 @@ EV_PROP = {
 ACTIONS = ["Send", "TrySend", "WhenEmpty", "SendWake", "WhenFlushed", "FlushRet", "DropSender",
            "RecvTake", "IdleWake", "AttemptEnd", "RetryWake"]
 
-QUICK = ["q1", "q2", "q3", "q4", "q5", "q6", "kill"]
-QUICK_EVERY = {"q1": 3, "q2": 8, "q3": 2, "q4": 3, "q5": 1, "q6": 4, "kill": 4}     # quick: seeded sample of the transitions
-THOROUGH = ["q1", "q2", "q3", "q4", "q5", "q6", "kill", "t3", "t1", "t2", "t1sim", "t2sim"]
+QUICK = ["q1", "q2", "q3", "q4", "q5", "q6", "q7", "q8", "kill"]
+QUICK_EVERY = {"q1": 3, "q2": 8, "q3": 2, "q4": 3, "q5": 1, "q6": 4, "q7": 1, "q8": 2, "kill": 4}     # quick: seeded sample of the transitions
+THOROUGH = ["q1", "q2", "q3", "q4", "q5", "q6", "q7", "q8", "kill", "t3", "t1", "t2", "t1sim", "t2sim"]
 SIM_BEHAVIOURS = 6000     # per worker
 NSHARDS = 12
 
@@ -330,11 +330,13 @@ def run(ctx, prop):
                    "Batcher.tla (%s): invariant %s violated by the design" % (name, r.violated),
                    {"kind": "tlc-counterexample", "counterexample": r.counterexample[:80]})
             continue
-        must = [a for a in ACTIONS if not (a in ("WhenEmpty", "SendWake") and name in ("q2", "q3", "q4", "q5", "t3"))
-                and not (a == "TrySend" and name in ("t3", "q4", "q5"))
+        must = [a for a in ACTIONS if not (a in ("WhenEmpty", "SendWake") and name in ("q2", "q3", "q4", "q5", "q7", "q8", "t3"))
+                and not (a == "TrySend" and name in ("t3", "q4", "q5", "q7"))
                 and not (a == "RetryWake" and name == "q4" and False)]
         if name == "q4":
             must += ["CbReturn", "WhenEmptyCb"]
+        if name == "q8":
+            must += ["WhenEmptyCb"]
         if name == "q5":
             must = [a for a in must if a not in ("WhenFlushed", "FlushRet")]
         if not sim:
